@@ -3,8 +3,12 @@
 use crate::core::{Check, Engine, Part};
 use crate::engine_a;
 use crate::engine_b;
+use crate::engine_c;
+use crate::engine_d;
 
 pub const A: Engine = Engine { name: "serve-sim", run: engine_a::run };
+pub const C: Engine = Engine { name: "thread-sim", run: engine_c::run };
+pub const D: Engine = Engine { name: "file-sim", run: engine_d::run };
 pub const B: Engine = Engine { name: "chunk-sim", run: engine_b::run };
 
 fn part(engine: Engine, mode: u32, q: u64, t: u64, what: &'static str) -> Part {
@@ -56,9 +60,17 @@ pub fn all() -> Vec<Check> {
             assumptions: vec!["the independent inflater (sim/src/inflate.rs) is trusted; it shares no code with flate2/miniz_oxide"],
         },
         Check {
+            prop: "C10",
+            level: "exploration",
+            parts: vec![part(C, 0, 40_000, 3_000_000, "real producer thread x real consumer thread under the baton scheduler (random / sticky / PCT), lock and wake granularity")],
+            rule: "one run = producer program (<= 6 ops of write/flush/wait-until-delivered/abort/drop) x consumer loop (park on Pending, <= 2 spurious re-polls, same or fresh waker) x one schedule; non-trivial = at least one context switch; distinct = distinct (thread, event kind) sequences",
+            assumptions: vec!["all state shared between BodyWriter and Body lives under the one instrumented mutex (chunker.rs), so lock-granularity interleaving is complete w.r.t. observable behaviour; a change adding atomics/unsafe shared state would need new scheduling points"],
+        },
+        Check {
             prop: "C11",
             level: "fault_enumeration",
-            parts: vec![part(B, 0, 300_000, 20_000_000, "abort / body-drop injected at every position of chunk-sim histories, plus queue-release scenarios")],
+            parts: vec![part(B, 0, 300_000, 20_000_000, "abort / body-drop injected at every position of chunk-sim histories, plus queue-release scenarios"),
+                        part(C, 0, 40_000, 3_000_000, "abort and body drop racing with the other side under the baton scheduler")],
             rule: "fault = abort or body drop at a drawn position of a drawn operation history (raw and gzip); non-trivial = the fault was injected and judged; the release scenarios measure this thread's live heap bytes",
             assumptions: vec!["a flush with nothing at all to hand over may return Ok after the body was dropped (weaker reading, see DESIGN.md 4.8)"],
         },
@@ -73,7 +85,9 @@ pub fn all() -> Vec<Check> {
             prop: "C12",
             level: "exploration",
             parts: vec![part(A, 0, 2_000_000, 100_000_000, "size_hint/is_end_stream sampled before every poll of serve() bodies and of Body::from/empty"),
-                        part(B, 0, 300_000, 20_000_000, "the same monitor on streaming bodies across write/flush/abort/drop histories")],
+                        part(B, 0, 300_000, 20_000_000, "the same monitor on streaming bodies across write/flush/abort/drop histories"),
+                        part(C, 0, 30_000, 2_000_000, "the same monitor sampled concurrently with a running producer thread"),
+                        part(D, 0, 20_000, 1_000_000, "the same monitor on serve(ChunkedReadFile) bodies incl. truncation")],
             rule: "every poll of every run is preceded by a sample; non-trivial = more than one sample; distinct as C01",
             assumptions: vec!["for serve() only contract-honouring entities count: fault-free streams and streams failing early with an Err"],
         },
@@ -100,10 +114,18 @@ pub fn all() -> Vec<Check> {
             assumptions: vec![],
         },
         Check {
+            prop: "C18",
+            level: "fault_enumeration",
+            parts: vec![part(D, 0, 40_000, 2_000_000, "real ChunkedReadFile over real files; truncate/extend/short read/EINTR/EIO at a drawn read instant; metadata scenarios")],
+            rule: "one run = file size class x range shape x read-size policy x (optional) one fault at a drawn read index, polled directly or through serve(); non-trivial = a non-empty range was streamed and judged (or a metadata scenario ran); grid = size class | range shape | fault | read index | via serve",
+            assumptions: vec!["the file system under /verif/sim/target/filesim behaves like a local POSIX file system (pread returns 0 at/after EOF)"],
+        },
+        Check {
             prop: "C20",
             level: "fault_enumeration",
             parts: vec![part(A, 0, 2_000_000, 100_000_000, "over-polling 1..4 times after every kind of terminal event of serve() bodies"),
-                        part(B, 0, 300_000, 20_000_000, "over-polling streaming bodies after clean end and after abort")],
+                        part(B, 0, 300_000, 20_000_000, "over-polling streaming bodies after clean end and after abort"),
+                        part(D, 0, 20_000, 1_000_000, "over-polling serve(ChunkedReadFile) bodies after clean end and after a truncation error")],
             rule: "one stream fault (or none) per run, then k extra polls after the first terminal event; non-trivial = at least one extra poll happened; grid = body shape x terminal kind x extra polls",
             assumptions: vec!["the simulated entity's own streams are fused (stay finished), as the property presupposes"],
         },
